@@ -672,12 +672,15 @@ func (ch *Channel) exchangeUpdated(c *Connection) {
 		return
 	}
 
-	p, ok := ch.RootPeers().Get(c.remotePeerInfo.HostPort)
-	if !ok {
-		return
+	if p, ok := ch.RootPeers().Get(c.remotePeerInfo.HostPort); ok {
+		ch.updatePeer(p)
 	}
-
-	ch.updatePeer(p)
+	if c.outboundHP != "" && c.outboundHP != c.remotePeerInfo.HostPort {
+		// Outbound connections may be in multiple peers.
+		if p, ok := ch.RootPeers().Get(c.outboundHP); ok {
+			ch.updatePeer(p)
+		}
+	}
 }
 
 // updatePeer updates the score of the peer and update it's position in heap as well.
